@@ -11,7 +11,7 @@ git -C /repo worktree remove --force "$wt" >/dev/null 2>&1
 git -C /repo worktree add --detach "$wt" HEAD >/dev/null 2>&1 || { echo "cannot create worktree"; exit 2; }
 trap 'git -C /repo worktree remove --force "$wt" >/dev/null 2>&1; rm -rf "$wt"' EXIT
 mkdir -p "$wt/_seeded"; cp -r "$sd"/* "$wt/_seeded/"
-cmd=$(python3 -c 'import json,sys,re; m=json.load(open(sys.argv[1])); c=m["demo_cmd"]; print(re.sub(r"/tmp/mut[2345]?-C\d+", sys.argv[2], c))' "$sd/meta.json" "$wt")
+cmd=$(python3 -c 'import json,sys,re; m=json.load(open(sys.argv[1])); c=m["demo_cmd"]; print(re.sub(r"/tmp/mut[0-9]?-C\d+", sys.argv[2], c))' "$sd/meta.json" "$wt")
 run() { (cd "$wt" && bash -c "$cmd") > "$wt/_out.$1" 2>&1; 
   if grep -qE '^(--- FAIL|FAIL)' "$wt/_out.$1"; then echo fail; elif grep -qE '^(ok|PASS)' "$wt/_out.$1"; then echo pass; else echo unknown; fi; }
 without=$(run without)
